@@ -132,7 +132,7 @@ prop('C09', True, "Lean model of the command's memoised recursion (aff) and of t
 prop('C15', True, "Lean model of the uncached classifier, the cached classifier (update_status) and the check walk. Theorems: classify_spec (each category's meaning; exhaustive and exclusive), totals_add_up, cached_eq_uncached "
      "(cache = unknown or truthful status of an earlier state with fewer results => cached = uncached), check_iff (for dependency-closed stores exit 0 iff all complete; counterexample without closure). Bridge classifier_table_matches: "
      "the real update_status is run on all 2304 combinations (dependencies among two tasks x results x lock x cached statuses) and the kernel checks every row against classifyCached. Correspondence: printed tables (all five columns per "
-     "name + Total) of the real `jug status` uncached/cached (on-disk cache along monotone histories), the counters `jug graph` writes (graph_classifier_eq) and the real check walk on generated DAGs x arbitrary result subsets and locks x 4 backends, plus the stores `jug invalidate` leaves behind. The one-line summary of --short: shortSummary with short_all_complete_iff / short_all_complete_count, every printed line compared with the model. The memoizing wrapper the cached mode reads every backend through (memoize_store / cache_lock) is modelled in Model/Memo.lean: memo_truthful, locked_answers_constant, failed_sticky, canLoad_truthful; the real wrapper is driven with every query sequence up to length 3 and random longer ones on three backends, base lock unchanged or changing, and compared with the model.",
+     "name + Total) of the real `jug status` uncached/cached (on-disk cache along monotone histories), the counters `jug graph` writes (graph_classifier_eq) and the real check walk on generated DAGs x arbitrary result subsets and locks x 4 backends, plus the stores `jug invalidate` leaves behind. The one-line summary of --short: shortSummary with short_all_complete_iff / short_all_complete_count, every printed line compared with the model. The memoizing wrapper the cached mode reads every backend through (memoize_store / cache_lock) is modelled in Model/Memo.lean: memo_truthful, locked_answers_constant, failed_sticky, canLoad_truthful; the real wrapper is driven with every query sequence up to length 3 and random longer ones on three backends, base lock unchanged or changing, and compared with the model; whole runs of can_load calls (canLoadRun: canLoadRun_truthful, canLoadRun_asks_once, canLoadRun_lookups_le) are compared with the real wrapper over a counting backend on the same three backends.",
      "Direct dependencies = what Task.dependencies() reports (C03 ties that to reality).",
      "Lean 4 proof + kernel-checked exhaustive classifier table (translator) + differential correspondence on printed output")
 
